@@ -260,6 +260,46 @@ fn c10_q_mutex_lock_vs_unlock() {
   });
 }
 
+static MREF: AtomicPtr<HybridMutex<u8>> = AtomicPtr::new(std::ptr::null_mut());
+fn actor_release_then_barge(a: sched::ActorId) {
+  let g = unsafe { &mut *MG.load(Relaxed) };
+  if a.0 == 1 {
+    // the holder releases and another thread barges in straight away
+    *g = None;
+    let m = unsafe { &*MREF.load(Relaxed) };
+    *g = m.try_lock();
+  } else {
+    *g = None;
+  }
+}
+
+/// C10: blocking lock() racing with a release that is immediately followed by another (barging)
+/// acquisition, whose holder releases only after the waiter has parked: the waiter must still be woken.
+/// Actor 1 (release + barge) starts at scheduling point `at`; actor 2 (final release) runs once the
+/// waiter is parked.
+#[kani::proof]
+#[kani::unwind(5)]
+fn c10_q_mutex_lock_vs_release_and_barge() {
+  with_pick(24, |at| {
+    let m_stack = HybridMutex::new(0u8);
+    let m: &'static HybridMutex<u8> = unsafe { &*(&m_stack as *const HybridMutex<u8>) };
+    let mut held = m.try_lock();
+    assert!(held.is_some(), "C10: try_lock failed on a free mutex");
+    MG.store(&mut held as *mut _, Relaxed);
+    MREF.store(m as *const _ as *mut _, Relaxed);
+    sched::set_preempt_at(at);
+    sched::install(actor_release_then_barge, 2, 1);
+    sched::set_stuck_is_bug(true);
+    let g = m.lock();
+    assert!(held.is_none(), "C10: lock() returned while another guard exists");
+    assert!(sched::points() <= 60, "VERIF-BOUND: more scheduling points than expected");
+    kani::cover!(sched::started() == 2, "waiter acquired after the barging holder released");
+    kani::cover!(sched::started_at(1) > 6, "release-and-barge happened after the waiter announced itself");
+    std::mem::forget(g);
+    std::mem::forget(held);
+  });
+}
+
 static MF: AtomicPtr<Option<MFut>> = AtomicPtr::new(std::ptr::null_mut());
 fn actor_cancel_mutex_future(_a: sched::ActorId) {
   let f = unsafe { &mut *MF.load(Relaxed) };
